@@ -14,7 +14,7 @@ from vlib.runner import Mismatch, drive
 PROP = "C08"
 LEVEL = "exploration"
 WORKERS = {"quick": 4, "thorough": 16}
-BUDGET = {"quick": 60, "thorough": 560}
+BUDGET = {"quick": 100, "thorough": 560}
 TECHNIQUE = (
     "model-based history generation (Hypothesis op lists + bounded-exhaustive short sequences, with and without a "
     "pre-existing cache file); differential observation panel cached vs uncached vs model; own gzip+JSON decoding of the cache file"
